@@ -252,7 +252,11 @@ def write(detector, spec, salt=0, spec_odd=None, track=False):
         opt = opt if isinstance(opt, dict) else {}
         st = 0 if opt.get("const") else step
         mul = opt.get("mul", 1)
-        if opt.get("recast"):
+        if opt.get("inplace3d"):
+            # a model that scales the multi-wavelength cube IN PLACE (the record of the model before it must keep its value)
+            if detector.photon._array is not None and getattr(detector.photon._array, "ndim", 0) == 3:
+                detector.photon.array_3d *= 2.0
+        elif opt.get("recast"):
             # same values, another dtype (e.g. a model that widens the image type): a dtype-only change of the bucket
             old = container_value(getattr(detector, b))
             if old is not None:
@@ -263,6 +267,8 @@ def write(detector, spec, salt=0, spec_odd=None, track=False):
             nwl = int(opt.get("wl", 0))
             if nwl:
                 wl = WAVELENGTHS[:nwl]
+                if opt.get("shift"):        # e.g. a scanning filter: the grid of this step
+                    wl = [x + 10.0 * step for x in wl]
                 cube = np.stack([v + 1000 * k for k in range(nwl)]).astype(dt)
                 coords = {"wavelength": wl}
                 if opt.get("xy"):        # e.g. pixel centres in um: the result must still be indexed by row / column
